@@ -29,3 +29,10 @@ func VerifMonitorState(m *Monitor, id interface{ String() string }) string {
 	}
 	return ""
 }
+
+// VerifFDConnected reports whether the detector's poll loop has established a connection to its monitor.
+// (An unsynchronised one-word read of a pointer that only the poll loop writes; used only to serialise the driver.)
+func VerifFDConnected(res distsys.ArchetypeResource) bool {
+	fd, ok := res.(*SingleFailureDetector)
+	return ok && fd.client != nil
+}
